@@ -236,6 +236,8 @@ def mps_noise_plumbing(ctx) -> None:
     oka = agg is not None and (canon(agg) == canon(want) or
                                ("conj()" in show(agg) and "transpose(1, 2)" in show(agg) and show(agg).count("stack(self.lindblad_ops)") == 2
                                 and strip_typed(agg)[0] == "bin" and strip_typed(agg)[1] == "MatMult" and "conj" in show(strip_typed(agg)[2])))
+    if not oka and agg is not None:
+        oka = _einsum_is_LdagL(strip_typed(agg), stacked)
     ctx.ob("ROLE-noise", "aggregated_lindblad_ops", f.loc(), oka,
            "aggregated_lindblad_ops[k] = L_k† L_k for the stacked self.lindblad_ops" if oka else
            f"aggregated_lindblad_ops = {show(agg)[:100] if agg is not None else 'not set'} is not stack(L)† @ stack(L)")
@@ -299,3 +301,34 @@ def mps_noise_plumbing(ctx) -> None:
                "the chosen operator is applied to the chosen site" if oka else
                "state.apply does not receive (chosen site, chosen operator)", entry=j.qualname)
         break
+
+
+def _einsum_is_LdagL(t, stacked) -> bool:
+    """torch.einsum(spec, X, Y) == stacked† @ stacked batched over the first index: out[k,a,b] = Σ_i conj(S[k,i,a])·S[k,i,b].
+    Both operands are the stacked list, the contracted letter is the *row* index of both, and the conjugated operand is
+    the one that supplies the first output index."""
+    if not (t[0] == "call" and t[1] == "torch.einsum" and len(t[2]) == 3 and strip_typed(t[2][0])[0] == "const"):
+        return False
+    spec = str(strip_typed(t[2][0])[1]).replace(" ", "")
+    if "->" not in spec or spec.count(",") != 1:
+        return False
+    ins, out = spec.split("->")
+    x, y = ins.split(",")
+    ops = []
+    for o in t[2][1:]:
+        o = strip_typed(o)
+        conj = False
+        while o[0] == "mcall" and o[2] in ("conj", "conj_physical", "contiguous"):
+            conj = conj or o[2].startswith("conj")
+            o = strip_typed(o[1])
+        if canon(o) != canon(stacked):
+            return False
+        ops.append(conj)
+    if not (len(x) == len(y) == len(out) == 3 and x[0] == y[0] == out[0] and x[1] == y[1] and x[1] not in out):
+        return False
+    a, b = x[2], y[2]          # free indices of the two operands
+    if a == b or sorted(out[1:]) != sorted([a, b]):
+        return False
+    # the operand whose free index comes first in the output must be the conjugated one (L† on the left), and only it
+    first_is_x = out[1] == a
+    return (ops[0] and not ops[1]) if first_is_x else (ops[1] and not ops[0])
